@@ -323,12 +323,16 @@ def rule_mode(chk):
     flag = None
     handler_ok = False
     type_handlers = [h for h in tr.handlers if h.type is not None and unparse(h.type) == "TypeError"]
+    handler_value = True
     for h in type_handlers:
         for st in h.body:
-            if isinstance(st, ast.Assign) and isinstance(st.targets[0], ast.Name) and isinstance(st.value, ast.Constant) and st.value.value is True:
+            if isinstance(st, ast.Assign) and isinstance(st.targets[0], ast.Name) and isinstance(st.value, ast.Constant) and isinstance(st.value.value, bool):
                 flag = st.targets[0].id
+                handler_value = st.value.value
                 handler_ok = True
-    init_false = flag is not None and any(isinstance(v, ast.Constant) and v.value is False for v in assigned_values(f, flag))
+    # everywhere else the flag gets the opposite constant (before the probe, or in the try's else arm)
+    init_false = flag is not None and any(isinstance(v, ast.Constant) and v.value is (not handler_value) for v in assigned_values(f, flag)) \
+        and all(isinstance(v, ast.Constant) and isinstance(v.value, bool) for v in assigned_values(f, flag) if v is not None)
     hnodes = [n for n in cfg.live if n.kind == "handler" and any(n.ast is h for h in type_handlers)]
     direct_form = flag is None and len(type_handlers) == 1 and len(tr.handlers) == 1 and bool(hnodes)
     chk.req((handler_ok and init_false) or direct_form, "C10.mode", "FileDestination.__new__:probe-selects-text-mode-on-TypeError", chk.where(f, tr.lineno),
@@ -363,9 +367,9 @@ def rule_mode(chk):
                     if t.kind == "test":
                         e = t.exprs[0]
                         if isinstance(e, ast.Name) and e.id == flag:
-                            pol = (lab == "true")
+                            pol = ((lab == "true") == handler_value)
                         elif isinstance(e, ast.UnaryOp) and isinstance(e.op, ast.Not) and isinstance(e.operand, ast.Name) and e.operand.id == flag:
-                            pol = (lab != "true")
+                            pol = ((lab != "true") == handler_value)
                 if pol is None or pol in res:
                     return None
                 res[pol] = n.ast.value
